@@ -321,15 +321,19 @@ int main(int argc, char **argv) {
       delete fresh;
       fresh = NULL;
     }
+    // a cold load reads the file itself (std::ifstream: short reads at buffer boundaries, real seeks), the other states a memory stream
+    std::stringstream mem_in(cold ? std::string() : img, std::ios::in | std::ios::binary);
+    std::ifstream file_in;
+    if (cold) file_in.open(imgin, std::ios::binary);
+    std::istream &ss = cold ? (std::istream &)file_in : (std::istream &)mem_in;
+    if (cold) obs::count("cls.load_from_file_stream");
     if (lstate == "gen") {
-      std::stringstream ss(img, std::ios::in | std::ios::binary);
       obs::crumb("C06", "load", "generic loader opt=" + std::to_string(c.opt) + (cold ? " in a process that built nothing" : ""));
       c.d = StringDictionary::load(ss, c.opt);
       obs::count("eval.load");
       if (!c.d) { obs::violation("C06", "load", "load-failed", "generic", "generic loader returned NULL for a valid image"); }
       else if (!dyn_type_ok(c.kind, c.d)) obs::violation("C06", "load", "wrong-type", "generic", "generic loader returned another kind");
     } else if (lstate == "own" || lstate == "resaved") {
-      std::stringstream ss(img, std::ios::in | std::ios::binary);
       obs::crumb("C06", "load", "own loader opt=" + std::to_string(c.opt) + (cold ? " in a process that built nothing" : ""));
       c.d = load_own(c.kind, ss, c.opt);
       obs::count("eval.load");
